@@ -17,7 +17,7 @@ func init() {
 			"processing-to-idle case), Lock/TryLock are paired with Unlock, and a scheduled drain really dispatches maintenance. "+
 			"NOT decided: absence of lost wake-ups over all interleavings (a model-checking question).",
 		[]string{"the default executor runs every submitted function eventually", "sync.Mutex and sync/atomic behave as documented"},
-		ruleC14After, ruleC14Resched, ruleC14Status, ruleC14LockPair, ruleC14Dispatch, ruleC14Transitions, ruleC01Config)
+		ruleC14After, ruleC14Resched, ruleC14Status, ruleC14LockPair, ruleC14Dispatch, ruleC14Transitions, ruleC01Config, ruleC13Order)
 }
 
 type statusConsts struct {
